@@ -34,6 +34,7 @@ func init() {
 	for i, r := range []ruleFn{ruleC03R1, ruleC03R2, ruleC03R3, ruleC03R4, ruleC03R5, ruleC03R6, ruleC03R7, ruleC03R8, ruleC03R9} {
 		register("C03", fmt.Sprintf("C03.R%d", i+1), r)
 	}
+	register("C03", "C03.R10", ruleC03R10)
 	register("C03", "C01.R7", ruleC01R7)
 	propExplanation["C03"] = "Decides on every path: Accept counts each chunk in exactly once and resolves it exactly once as enqueued or dropped (R1) without any blocking operation (R2); " +
 		"every Load/Unload result is branched on and failure reaches the dropped accounting (R3); the quota test precedes the write and saved/gauge updates only follow a nil-error write (R4); " +
@@ -177,8 +178,12 @@ func blockingIn(P *Prog, fn *ssa.Function) []blockSite {
 				switch nm {
 				case "github.com/relex/gotils/channels.Awaitable.WaitForever", "github.com/relex/gotils/channels.Awaitable.Wait", "github.com/relex/gotils/channels.Awaitable.WaitTimer":
 					out = append(out, blockSite{in, "wait", nm})
-				case "net.Conn.Read", "net.Conn.Write", "io.Writer.Write", "io.Reader.Read":
+				case "net.Conn.Read", "net.Conn.Write":
 					out = append(out, blockSite{in, "netio", nm})
+				case "io.Writer.Write":
+					if anchorName(fn) == "output/fluentdforward.writeAll" { // the writer is the upstream socket
+						out = append(out, blockSite{in, "netio", nm})
+					}
 				}
 				return
 			}
@@ -872,4 +877,80 @@ func ruleC03R9(c *Ctx) {
 		c.check(good, "C03.R9", fn, "pending gauge "+e.gauge+" once and exactly one outcome counter", fn.Pos(),
 			fmt.Sprintf("all %d path outcomes balance", len(outs)), "unbalanced accounting: "+strings.Join(why, "; "))
 	}
+}
+
+// R10: the byte gauge — left-hand side of the quota test — moves only together
+// with the set of files: up after a successful write or for a recovered file,
+// down after a successful unlink. Anything else is a reviewed entry keyed by
+// function + canonical argument expression.
+var c03R10Reviewed = map[string]string{
+	"buffer/hybridbuffer.(*chunkOperator).OnChunkDropped|Sub|len(param:chunk.Data)": "the argument is the in-memory length, which is 0 for every saved chunk reaching this function: saved chunks are unloaded (UnloadChunk sets Data=nil with Saved=true, C03.R4) and a failed load leaves Data nil; the file stays on disk and therefore stays counted",
+	"buffer/hybridbuffer.newChunkOperator|Set|0":                                    "constructor reset before the operator is shared",
+}
+
+func ruleC03R10(c *Ctx) {
+	const g = "buffer/hybridbuffer.chunkOperatorMetrics.persistentChunkBytes"
+	n := 0
+	for _, fn := range c.P.universe {
+		for _, s := range callsIn(fn) {
+			cc := s.Common()
+			if !cc.IsInvoke() || fieldOf(cc.Value) != g {
+				continue
+			}
+			m := cc.Method.Name()
+			if m == "Get" {
+				continue
+			}
+			n++
+			arg := ""
+			if len(cc.Args) > 0 {
+				arg = canonOf(cc.Args[0])
+			}
+			construct := fmt.Sprintf("persistentChunkBytes.%s(%s)", m, arg)
+			name := anchorName(fn)
+			switch {
+			case m == "Add" && name == aUnloadChunk:
+				ok := false
+				for _, w := range c.callsTo(fn, anchorPred(aWriteFileAt)) {
+					for b, si := range nilEdges(w.Value(), true) {
+						if c.onlyViaEdge(fn, s, b, si) && canonOf(stripLen(cc.Args[0])) == canonOf(w.Common().Args[2]) {
+							ok = true
+						}
+					}
+				}
+				c.check(ok, "C03.R10", fn, construct, s.Pos(), "added after a successful write, by the length of the data written", "the byte gauge is increased by something other than the bytes just written successfully")
+			case m == "Add" && name == aOpRecovered:
+				c.check(strings.Contains(arg, "util.StatFileAt"), "C03.R10", fn, construct, s.Pos(), "a recovered file adds its stat size", "a recovered file does not add its size on disk")
+			case m == "Sub" && name == aRemoveChunk:
+				ok := false
+				for _, u := range c.callsTo(fn, anchorPred(aUnlinkAt)) {
+					for b, si := range nilEdges(u.Value(), true) {
+						if c.onlyViaEdge(fn, s, b, si) {
+							ok = true
+						}
+					}
+				}
+				c.check(ok, "C03.R10", fn, construct, s.Pos(), "subtracted only after a successful unlink", "the byte gauge is decreased although the file is still there")
+			default:
+				if why, ok := c03R10Reviewed[name+"|"+m+"|"+arg]; ok {
+					c.assumed("C03.R10", fn, construct, s.Pos(), "reviewed: "+why)
+				} else {
+					c.bad("C03.R10", fn, construct, s.Pos(), "the byte gauge used by the quota test changes without a matching change of the files on disk (not after a successful write/unlink, not a recovered file, not a reviewed entry): the queue directory can outgrow its limit or reject chunks it has room for")
+				}
+			}
+		}
+	}
+	c.floor("C03.R10", "updates of the byte gauge", n, 5)
+}
+
+// stripLen: int64(len(x)) -> x
+func stripLen(v ssa.Value) ssa.Value {
+	v = strip(v)
+	if cv, ok := v.(*ssa.Convert); ok {
+		v = strip(cv.X)
+	}
+	if cl, ok := v.(*ssa.Call); ok && isBuiltin(cl, "len") {
+		return cl.Call.Args[0]
+	}
+	return v
 }
